@@ -50,13 +50,14 @@ Definition HInv (D : list vote) (s : cstate) : Prop :=
 
 Definition has_block (s : cstate) (b : block) : Prop :=
   cs_pblock s = Some b \/ cs_lblock s = Some b \/ cs_vblock s = Some b.
-Definition BInv (P : list N) (s : cstate) : Prop := forall b, has_block s b -> In (b_hash b) P.
+Definition BInv (P : list block) (s : cstate) : Prop := forall b, has_block s b -> In b P.
+Definition held (P : list block) (h : N) : Prop := exists blk, In blk P /\ b_hash blk = h.
 
-Definition Core (D : list vote) (P : list N) (SPC : list spc) (s : cstate) : Prop :=
+Definition Core (D : list vote) (P : list block) (SPC : list spc) (s : cstate) : Prop :=
   HInv D s /\ LInv D SPC s /\ BInv P s.
 
 (* the run-level reading of clauses 2 and 3 on a list of outputs, in signing order *)
-Fixpoint outs_ok (D : list vote) (P : list N) (SPC : list spc) (o : list output) : Prop :=
+Fixpoint outs_ok (D : list vote) (P : list block) (SPC : list spc) (o : list output) : Prop :=
   match o with
   | [] => True
   | out :: rest =>
@@ -64,7 +65,9 @@ Fixpoint outs_ok (D : list vote) (P : list N) (SPC : list spc) (o : list output)
     | OSignVote ty h r x =>
       (ty = PREVOTE -> forall r0 b0, In (h, r0, b0) SPC -> r0 < r -> bhash x <> Some (fst b0) ->
                         Released D h r0 b0 r) /\
-      (ty = PRECOMMIT -> forall b, x = Some b -> Polka D h r (Some b) /\ In (fst b) P)
+      (ty = PRECOMMIT -> forall b, x = Some b -> Polka D h r (Some b) /\ held P (fst b))
+    | ODecide h r bh =>
+      exists ph blk, Quorum D (e_vals E) PRECOMMIT h r (Some (bh, ph)) /\ In blk P /\ b_hash blk = bh /\ b_valid blk = true
     | _ => True
     end /\ outs_ok D P (SPC ++ opcs out) rest
   end.
@@ -75,12 +78,6 @@ Proof.
   induction o1 as [|x o1 IH]; intros SPC o2; cbn [app outs_ok pcs flat_map].
   - rewrite app_nil_r. tauto.
   - rewrite IH. rewrite <- app_assoc. tauto.
-Qed.
-
-Lemma outs_ok_nosign D P SPC o : keys o = [] -> outs_ok D P SPC o.
-Proof.
-  revert SPC; induction o as [|x o IH]; intros SPC Hk; [exact I|].
-  cbn in Hk. destruct x; cbn in Hk; try discriminate; cbn [outs_ok opcs]; rewrite ?app_nil_r; (split; [exact I | apply IH; exact Hk]).
 Qed.
 
 (* ---------------------------------------------------------------- frame *)
@@ -174,11 +171,11 @@ Qed.
 
 (* ---------------------------------------------------------------- the combined invariant *)
 
-Definition Full (D : list vote) (P : list N) (SPC : list spc) (s : cstate) : Prop :=
+Definition Full (D : list vote) (P : list block) (SPC : list spc) (s : cstate) : Prop :=
   Core D P SPC s /\ AllBelow SPC s /\ SchedInv s.
 
 (* what each function has to deliver *)
-Definition LK (D : list vote) (P : list N) (SPC : list spc) (s s' : cstate) (o : list output) : Prop :=
+Definition LK (D : list vote) (P : list block) (SPC : list spc) (s s' : cstate) (o : list output) : Prop :=
   Full D P (SPC ++ pcs o) s' /\ outs_ok D P SPC o.
 
 Lemma lk_from_core D P SPC s s' o :
@@ -404,6 +401,14 @@ Proof.
   rewrite <- H2. eapply good_set_quorum; eassumption.
 Qed.
 
+Lemma pc_quorum_from_state D s r x :
+  HInv D s -> o_maj23 (precommits (cs_votes s) r) = Some x -> Quorum D (e_vals E) PRECOMMIT (cs_height s) r x.
+Proof.
+  intros [H1 H2] Hm. unfold precommits in Hm. destruct (hv_get (cs_votes s) r PRECOMMIT) as [vs|] eqn:G; [|discriminate].
+  cbn in Hm. pose proof (hv_get_good D (e_vals E) (cs_votes s) r PRECOMMIT vs H1 G) as Gs. cbn in Gs.
+  rewrite <- H2. eapply good_set_quorum; eassumption.
+Qed.
+
 Lemma hashes_to_some b h : hashes_to b h = true -> exists lb, b = Some lb /\ b_hash lb = h.
 Proof. destruct b as [lb|]; cbn; [intro H; apply N.eqb_eq in H; eauto | discriminate]. Qed.
 Lemma hashes_to_false lb h : hashes_to (Some lb) h = false -> b_hash lb <> h.
@@ -465,7 +470,7 @@ Proof.
     assert (Tail : forall (f : cstate -> cstate) b extra,
               cs_halted (f s) = false -> cs_height (f s) = cs_height s -> cs_round (f s) = cs_round s ->
               Core D P (SPC ++ extra) (f s) ->
-              (match b with Some bb => extra = [(cs_height s, cs_round s, bb)] /\ Polka D (cs_height s) (cs_round s) (Some bb) /\ In (fst bb) P
+              (match b with Some bb => extra = [(cs_height s, cs_round s, bb)] /\ Polka D (cs_height s) (cs_round s) (Some bb) /\ held P (fst bb)
                           | None => extra = [] end) ->
               seq (modify f) (seq (sign_add_vote E PRECOMMIT b) (modify (set_rs (cs_round s) SPrecommit))) s = (s', o) ->
               LK D P SPC s s' o).
@@ -506,14 +511,14 @@ Proof.
       destruct (hashes_to_some _ _ HL) as (lb & El & Ehh). subst h.
       refine (Tail _ (Some (b_hash lb, ph)) _ _ _ _ _ _ Eq); cbv beta; cs; try reflexivity; try exact Hh.
       - rewrite El. apply (core_lock D P SPC s lb _ ph); try assumption. right; left; exact El.
-      - split; [reflexivity | split; [exact Hpol|]]. cbn. destruct C as (_ & _ & BI). apply BI. right; left; exact El. }
+      - split; [reflexivity | split; [exact Hpol|]]. cbn. destruct C as (_ & _ & BI). exists lb. split; [apply BI; right; left; exact El | reflexivity]. }
     destruct (hashes_to (cs_pblock s) h) eqn:HP.
     { destruct (hashes_to_some _ _ HP) as (pb & Ep & Ehh). subst h. rewrite Ep in Eq.
       destruct (negb (b_valid pb)).
       - pose proof (panic_lk D P SPC 3 s FF) as L. rewrite Eq in L. exact L.
       - refine (Tail _ (Some (b_hash pb, ph)) _ _ _ _ _ _ Eq); cbv beta; cs; try reflexivity; try exact Hh.
         + rewrite Ep. apply (core_lock D P SPC s pb _ ph); try assumption. left; exact Ep.
-        + split; [reflexivity | split; [exact Hpol|]]. cbn. destruct C as (_ & _ & BI). apply BI. left; exact Ep. }
+        + split; [reflexivity | split; [exact Hpol|]]. cbn. destruct C as (_ & _ & BI). exists pb. split; [apply BI; left; exact Ep | reflexivity]. }
     (* polka for a block we do not have: unlock *)
     assert (Cu : Core D P SPC (set_locked (-1) None None s)).
     { apply (core_unlock D P SPC s (Some (h, ph)) C AB Hst Hpol). intros lb El. rewrite El in HL.
@@ -548,18 +553,23 @@ Lemma finalize_commit_lk D P SPC height s s' o :
   Full D P SPC s -> cs_halted s = false -> finalize_commit E height s = (s', o) -> LK D P SPC s s' o.
 Proof.
   intros F Hh Eq. unfold finalize_commit in Eq.
-  destruct (negb (cs_height s =? height) || negb (step_eqb (cs_step s) SCommit)); [injection Eq as <- <-; apply lk_nil; exact F|].
+  destruct (negb (cs_height s =? height) || negb (step_eqb (cs_step s) SCommit)) eqn:Gd; [injection Eq as <- <-; apply lk_nil; exact F|].
   assert (Pn : forall c, panic c s = (s', o) -> LK D P SPC s s' o).
   { intros c Ep. pose proof (panic_lk D P SPC c s F) as L. rewrite Ep in L. exact L. }
-  destruct (o_maj23 (precommits (cs_votes s) (cs_commit_round s))) as [[[h ph]|]|]; try (eapply Pn; exact Eq).
+  destruct (o_maj23 (precommits (cs_votes s) (cs_commit_round s))) as [[[h ph]|]|] eqn:Maj; try (eapply Pn; exact Eq).
   destruct (negb (has_header (cs_pparts s) ph)); [eapply Pn; exact Eq|].
-  destruct (negb (hashes_to (cs_pblock s) h)); [eapply Pn; exact Eq|].
-  destruct (cs_pblock s) as [pb|]; [|eapply Pn; exact Eq].
-  destruct (negb (b_valid pb)); [eapply Pn; exact Eq|].
+  destruct (negb (hashes_to (cs_pblock s) h)) eqn:HT; [eapply Pn; exact Eq|].
+  destruct (cs_pblock s) as [pb|] eqn:Epb; [|eapply Pn; exact Eq].
+  destruct (negb (b_valid pb)) eqn:Vd; [eapply Pn; exact Eq|].
   unfold seq, emit in Eq. rewrite Hh in Eq.
   destruct (update_to_next_height E s) as [s2 o2] eqn:Eu. injection Eq as <- <-.
   pose proof (update_to_next_height_lk D P SPC s s2 o2 F Hh Eu) as [A B].
-  split; [exact A | cbn [app outs_ok opcs]; rewrite app_nil_r; split; [exact I | exact B]].
+  split; [exact A|]. cbn [app outs_ok opcs]. rewrite app_nil_r. split; [|exact B].
+  bool_to_prop. exists ph, pb. split; [|split; [|split]].
+  - rewrite <- H. apply (pc_quorum_from_state D s (cs_commit_round s) (Some (h, ph)) (proj1 (proj1 F)) Maj).
+  - destruct F as ((_ & _ & BI) & _). apply BI. left. exact Epb.
+  - cbn in HT. apply N.eqb_eq in HT. exact HT.
+  - exact Vd.
 Qed.
 
 Lemma try_finalize_commit_lk D P SPC height s s' o :
@@ -666,7 +676,7 @@ Proof.
 Qed.
 
 Lemma add_part_lk D P SPC height ph idx d s s' o :
-  Full D P SPC s -> cs_halted s = false -> (forall b, d = Some b -> In (b_hash b) P) ->
+  Full D P SPC s -> cs_halted s = false -> (forall b, d = Some b -> In b P) ->
   add_part E height ph idx d s = (s', o) -> LK D P SPC s s' o.
 Proof.
   intros F Hh Hd Eq. unfold add_part in Eq.
@@ -872,13 +882,13 @@ Qed.
 
 Definition votes_of (ins : list input) : list vote :=
   flat_map (fun i => match i with IVote v _ => [v] | _ => [] end) ins.
-Definition blocks_of (ins : list input) : list N :=
-  flat_map (fun i => match i with IPart _ _ _ (Some b) => [b_hash b] | _ => [] end) ins.
+Definition blocks_of (ins : list input) : list block :=
+  flat_map (fun i => match i with IPart _ _ _ (Some b) => [b] | _ => [] end) ins.
 
-Definition input_in (D : list vote) (P : list N) (i : input) : Prop :=
+Definition input_in (D : list vote) (P : list block) (i : input) : Prop :=
   match i with
   | IVote v _ => In v D
-  | IPart _ _ _ (Some b) => In (b_hash b) P
+  | IPart _ _ _ (Some b) => In b P
   | _ => True
   end.
 
@@ -939,7 +949,7 @@ Qed.
 (* readable corollaries *)
 Lemma outs_ok_precommit E D P : forall o SPC h r b,
   outs_ok E D P SPC o -> In (OSignVote PRECOMMIT h r (Some b)) o ->
-  Polka E D h r (Some b) /\ In (fst b) P.
+  Polka E D h r (Some b) /\ held P (fst b).
 Proof.
   induction o as [|x o IH]; intros SPC h r b Ok Hin; [destruct Hin|].
   cbn [outs_ok] in Ok. destruct Ok as [Hx Hrest]. destruct Hin as [->|Hin].
@@ -958,10 +968,28 @@ Proof.
   apply in_or_app. left. apply in_or_app. right. cbn. left. reflexivity.
 Qed.
 
+Lemma outs_ok_decide E D P : forall o SPC h r bh,
+  outs_ok E D P SPC o -> In (ODecide h r bh) o ->
+  exists ph blk, Quorum D (e_vals E) PRECOMMIT h r (Some (bh, ph)) /\ In blk P /\ b_hash blk = bh /\ b_valid blk = true.
+Proof.
+  induction o as [|x o IH]; intros SPC h r bh Ok Hin; [destruct Hin|].
+  cbn [outs_ok] in Ok. destruct Ok as [Hx Hrest]. destruct Hin as [->|Hin]; [exact Hx | eapply IH; eassumption].
+Qed.
+
+(* C01, second sentence: a decided block passed validation, its complete part set was
+   delivered, and it is backed by +2/3 precommits for exactly that block id in one round among
+   the votes delivered to the node *)
+Theorem decide_backed E height lc ins h r bh :
+  powers_nonneg (e_vals E) ->
+  In (ODecide h r bh) (concat (snd (run E (init_state E height lc) ins))) ->
+  exists ph blk, Quorum (votes_of ins) (e_vals E) PRECOMMIT h r (Some (bh, ph)) /\
+                 In blk (blocks_of ins) /\ b_hash blk = bh /\ b_valid blk = true.
+Proof. intros Hnn Hin. eapply outs_ok_decide; [apply votes_justified; exact Hnn | exact Hin]. Qed.
+
 Theorem precommit_justified E height lc ins h r b :
   powers_nonneg (e_vals E) ->
   In (OSignVote PRECOMMIT h r (Some b)) (concat (snd (run E (init_state E height lc) ins))) ->
-  Polka E (votes_of ins) h r (Some b) /\ In (fst b) (blocks_of ins).
+  Polka E (votes_of ins) h r (Some b) /\ held (blocks_of ins) (fst b).
 Proof. intros Hnn Hin. eapply outs_ok_precommit; [apply votes_justified; exact Hnn | exact Hin]. Qed.
 
 Theorem lock_discipline E height lc ins o1 h r b o2 r' x o3 :
